@@ -86,6 +86,10 @@ func (r *sioTimerRun) step(st gen.TimerStep, who string) {
 	case "sleep":
 		r.wait(time.Duration(st.Ms) * time.Millisecond)
 	case "pending":
+		if os.Getenv("VERIF_NO_PENDING") != "" {
+			// race-detector run: the harness itself must not read the live timer table
+			return
+		}
 		ids := []string{}
 		if m, have := r.cr.Machines[sio.TimersMachine]; have && m.State != nil {
 			if tm, is := m.State.Bs["timers"].(map[string]*sio.TimerEntry); is {
